@@ -75,3 +75,27 @@ func VerifBtoi64(b []byte) (int64, error) { return btoi64(b) }
 
 // VerifItoa is itoa.
 func VerifItoa(i int64) string { return itoa(i) }
+
+// VerifInstance is a parsed CLUSTER NODES master with its replicas.
+type VerifInstance struct {
+	ID, Addr string
+	Slots    []int
+	Replicas []string
+}
+
+// VerifParseClusterNodes is parseClusterNodes.
+func VerifParseClusterNodes(data string) ([]VerifInstance, error) {
+	insts, err := parseClusterNodes(data)
+	if err != nil {
+		return nil, err
+	}
+	var out []VerifInstance
+	for _, i := range insts {
+		v := VerifInstance{ID: i.ID, Addr: i.Addr, Slots: i.Slots}
+		for _, r := range i.Replicas {
+			v.Replicas = append(v.Replicas, r.Addr)
+		}
+		out = append(out, v)
+	}
+	return out, nil
+}
